@@ -119,6 +119,22 @@ def gen_dump(rnd, big=False, allow_zero_tid=True, residue_case=False, world=None
             if it:
                 per.setdefault(it[0].abs['tid'], []).extend(it)
         stream = gen.interleave(rnd, list(per.values()), burst=rnd.choice([1, 2, 4]))
+    # DOMAIN: a string record names the data record that precedes it on its thread.  A SECOND string record for the same data
+    # record (the kernel never writes one) is outside what the statements pin - renaming the process again or ignoring it are
+    # both defensible - such records are not generated.  (A string record with NO data record in this dump stays: it must
+    # learn nothing.)
+    slot, kept = {}, []
+    for e in stream:
+        c, t_ = e.abs['cls'], e.abs['tid']
+        if c in ('NTD', 'EXD'):
+            slot[(t_, c[:2])] = 'fresh'
+        elif c in ('NTS', 'EXS'):
+            if slot.get((t_, c[:2])) == 'used':
+                continue
+            if slot.get((t_, c[:2])) == 'fresh':
+                slot[(t_, c[:2])] = 'used'
+        kept.append(e)
+    stream = kept
     tmap = [(t, pids[t], names[pids[t]]) for t in rnd.sample([1, 2, 3], rnd.randrange(0, 4))]
     if logs:
         # a version-3 dump with log records (thread 0 = no thread; a record naming a process and a thread extends the tables)
